@@ -6,6 +6,18 @@ MODULE = "PropC06"
 THEOREMS = ["C06_code_conforms", "C06_order_facts", "C06_slots_never_exceeded", "C06_invariant_form", "C06_nonvacuous", "C06_in_workflow"]
 
 
+class BgProc(t3.Proc):
+    """the command leaves part of its work to a background job that keeps the command's standard output and error open (no
+    `wait`): the job belongs to the execution of the command -- exec.Cmd.Wait returns when it has let go of the pipe -- and is
+    covered by the task's slots; it is the job that logs the end of the interval"""
+    def pattern(self):
+        key = self.key_pattern()
+        ins = " ".join("{i:%s}" % port for port, _ in self.ins)
+        body = ("cat " + ins + " && " if ins else "") + "echo " + self.tok
+        return ('echo "S %s" $(date +%%s%%N) >> "$VERIF_TRACE" && { ( %s ; echo "E %s" $(date +%%s%%N) >> "$VERIF_TRACE" ) & } && ( %s ) > {o:%s}'
+                % (key, self.sleep or "sleep 0.05", key, body, self.outs[0][0]))
+
+
 def build(rng):
     mx = rng.randint(1, 6)
     sp = t3.Spec(maxtasks=mx, bufsize=rng.choice([1, 2, 128]))
@@ -22,6 +34,8 @@ def build(rng):
         gof = rng.random() < 0.15
         # a third of the shell processes run a multi-line script whose first line is a comment
         cls = t3.CommentProc if (not gof and rng.random() < 0.35) else t3.Proc
+        if not gof and rng.random() < 0.2:
+            cls = BgProc
         sp.proc(cls(name, kind="cattok", ins=[("a", [(s, "out")])], outs=[("o", "{i:a}.%s" % name)], cores=c,
                     sleep="sleep 0.0%d" % rng.randint(2, 6), gofunc=gof))
     return sp, cores, mx
